@@ -434,8 +434,76 @@ def minimise(stmts, kind, checker):
     rel = relation_tokens(fails[0][0])
     if rel and "LELSE" in sig.split(","):
         # loop-else findings are keyed more finely: where the use and the definition sit relative to each other
-        sig = ",".join(sorted(set(sig.split(",")) | set(rel)))
+        # and relative to the (first) loop that has an else clause
+        sig = ",".join(sorted(set(sig.split(",")) | set(rel) | set(loop_else_tokens(small, fails[0][0]))))
     return f"{kind}|{sig}", f"[minimal: {cfg.encode(small)}] " + fails[0][1], small
+
+
+def loop_else_tokens(stmts, judge_key):
+    """UL:<r> / DL:<r>: where the use (and the definition the failure names) sit relative to the first loop with
+    an else clause: body, else, or before / after it in document order."""
+    m = re.match(r"^[\w-]+\|use@", judge_key)
+    if not m:
+        return []
+    order = {}   # ("use", site) / ("def", k) -> (preorder index, region stack)
+    loop = {}
+    counter = itertools.count()
+
+    def go(b, region):
+        for st_ in b or []:
+            i = next(counter)
+            t = st_[0]
+            if t in ("assign", "assignn"):
+                order[("def", st_[1])] = (i, region)
+            elif t == "use":
+                order[("use", st_[1])] = (i, region)
+            elif t in ("while", "for"):
+                first = st_[2] is not None and not loop
+                if first:
+                    loop["at"] = i
+                go(st_[1], "body" if first else region)
+                go(st_[2], "else" if first else region)
+                if first:
+                    loop["end"] = next(counter)
+            elif t == "if":
+                go(st_[1], region)
+                go(st_[2], region)
+            elif t == "whiletrue":
+                go(st_[1], region)
+            elif t == "try":
+                go(st_[1], region)
+                for h in st_[2]:
+                    go(h, region)
+                go(st_[3], region)
+                go(st_[4], region)
+            elif t == "with":
+                go(st_[2], region)
+    go(stmts, None)
+    if not loop:
+        return []
+    # the failing site and definition are read back from the message key via paths(): take the first use / def
+    # whose textual path matches
+    sites, defs = paths(stmts)
+    mm = re.match(r"^[\w-]+\|use@([^|]*)(?:\|def@([^|]*))?", judge_key)
+    up, dp = mm.group(1), mm.group(2)
+
+    def rel(kind, want, table):
+        for key, path in sorted(table.items(), key=lambda kv: str(kv[0])):
+            if path == want and (kind, key) in order:
+                i, region = order[(kind, key)]
+                if region in ("body", "else") and loop["at"] < i < loop.get("end", 10 ** 9):
+                    return region
+                return "before" if i < loop["at"] else "after"
+        return None
+    toks = []
+    r = rel("use", up, sites)
+    if r:
+        toks.append("UL:" + r)
+    if dp is not None and dp != "?":
+        r = rel("def", dp, defs)
+        if r:
+            toks.append("DL:" + r)
+    return toks
 
 
 def relation_tokens(judge_key):
